@@ -39,7 +39,7 @@ func init() {
 								if rng.Intn(3) == 0 {
 									cfg.ClientNoFC, cfg.ServerNoFC = true, true
 								}
-								out = append(out, Case{Family: "shapemismatch", Seed: rng.Int63(), Cfg: cfg, S: map[string]string{"caller": callerShape, "via": via}, P: map[string]int{"nresp": nresp, "big": rng.Intn(2)}})
+								out = append(out, Case{Family: "shapemismatch", Seed: rng.Int63(), Cfg: cfg, S: map[string]string{"caller": callerShape, "via": via}, P: map[string]int{"nresp": nresp, "big": rng.Intn(2), "empty": rng.Intn(2)}})
 							}
 						}
 					}
@@ -66,6 +66,9 @@ func famShapeMismatch(w *World, c *Case, rng *rand.Rand) {
 		n := 50 + 10*i
 		if c.p("big", 0) == 1 && i == 1 {
 			n = 40000
+		}
+		if c.p("empty", 0) == 1 && i == 0 {
+			n = 0 // an empty first response (zero bytes on the wire) is a response all the same
 		}
 		hd = append(hd, Op{K: "send", N: n})
 	}
